@@ -169,13 +169,14 @@ def infrastructure(ctx: Ctx, oid: str):
     # Result stores what the solver hands it: a frozen dataclass without hooks.  Every property is stated about the
     # fields of the Result; a hook that tidies, rounds or re-labels them changes the answer of every solver at once
     methods = sorted(n.name for n in rc.body if isinstance(n, (ast.FunctionDef, ast.AsyncFunctionDef)))
-    hooks = [x for x in methods if x not in ("ok", "log", "__repr__", "__str__")]
+    # methods that run when a Result is built or a field is read or written (a new convenience method does neither)
+    hooks = [x for x in methods if x in ("__post_init__", "__init__", "__new__", "__setattr__", "__getattribute__", "__getattr__", "__delattr__", "__init_subclass__", "__set_name__", "__get__", "__set__", "__class_getitem__", "__reduce__", "__copy__", "__deepcopy__", "__eq__", "__hash__")]
     deco = [ast.unparse(d) for d in rc.decorator_list]
     frozen = any(d.startswith("dataclass(") and "frozen=True" in d for d in deco)
     forced = [n for n in ast.walk(m.tree) if isinstance(n, ast.Call) and ast.unparse(n.func) in ("object.__setattr__", "setattr", "super().__setattr__")]
     fnames = {f_[0] for f_ in fields}
     shadow = [n.name for n in rc.body if isinstance(n, ast.FunctionDef) and n.name in fnames]
-    ctx.ob(oid, "R28 WRITER-DISCIPLINE", None, "Result is a frozen dataclass with no initialisation hook: its fields hold exactly what the solver passed", frozen and not hooks and not forced and not shadow, f"decorators {deco}, extra methods {hooks}, forced writes {[ast.unparse(x)[:40] for x in forced[:2]]}: a `__post_init__` that rounds an objective, strips 'noise' from a solution or re-labels an 'empty' answer rewrites what every solver reports - the objective is no longer the value of the returned solution, labels are no longer the caller's, an empty cover is no longer OPTIMAL", rel=m.rel, fname="Result", node=rc)
+    ctx.ob(oid, "R28 WRITER-DISCIPLINE", None, "Result is a frozen dataclass with no initialisation hook: its fields hold exactly what the solver passed", frozen and not hooks and not forced and not shadow, f"decorators {deco}, hooks {hooks}, forced writes {[ast.unparse(x)[:40] for x in forced[:2]]}: a `__post_init__` that rounds an objective, strips 'noise' from a solution or re-labels an 'empty' answer rewrites what every solver reports - the objective is no longer the value of the returned solution, labels are no longer the caller's, an empty cover is no longer OPTIMAL", rel=m.rel, fname="Result", node=rc)
     members = [ast.unparse(n.targets[0]) for n in st.body if isinstance(n, ast.Assign)]
     ctx.ob(oid, "R18 table", None, "Status has the members OPTIMAL, FEASIBLE, INFEASIBLE, UNBOUNDED, MAX_ITER", members == ["OPTIMAL", "FEASIBLE", "INFEASIBLE", "UNBOUNDED", "MAX_ITER"], f"{members}", rel=m.rel, fname="Status", node=st)
     okp = m.funcs.get("Result.ok")
